@@ -51,6 +51,15 @@ def main(tier, seed):
         if p[0] == "MISMATCH":
             m = p[1]
             run.violation(m["kind"], "%s/%s" % (m["va"]["t"], m["vb"]["t"]), m)
+    # 4. the ordering as min / max / sorting use it: equal sort keys are ties and ties keep the order of the entries, whatever
+    #    their table keys are (judged by the library contracts of the reference machine)
+    import probes
+    from cardsem import run_programs, validate_programs, report_mismatches
+    names = sorted(probes.C19_SORT_IDIOMS)
+    out = run_programs([probes.C19_SORT_IDIOMS[n] for n in names], "ties", os.path.join(d, "ties.ndjson"))
+    mism, stats = validate_programs(run, [out], "C19-ties", nproc=2, timeout=900)
+    report_mismatches(run, mism)
+    run.notes["tie_programs"] = len(names)
     run.notes["universe_size"] = len(U)
     run.notes["pairs"] = nrec
     run.notes["triples_checked"] = len(U) ** 3
